@@ -1,9 +1,15 @@
 import PyamgV.Driver.Util
+import PyamgV.Model.ExtPairwise
 /-! Driver ops of the extension models (ExtPairwise). Op names are prefixed `ext_`. -/
 namespace PyamgV.Drv.ExtPairwise
 open PyamgV PyamgV.Drv
 
 def handle : List String → Option String
+  -- `ext_pairwise n Sp Sj Sx` -> `x;y[:k];k` of the kernel model the C12 theorems are about
+  | ["ext_pairwise", n, ap, aj, ax] =>
+    some <| match ExtPw.pairwise (nat n) (parseNats ap) (parseNats aj) (parseRats ax) with
+      | some (x, y, k) => showNats x ++ ";" ++ showNats y ++ ";" ++ toString k
+      | none => "invalid"
   | _ => none
 
 end PyamgV.Drv.ExtPairwise
